@@ -78,6 +78,7 @@ func (m *MonRestart) Name() string { return "C09" }
 
 func (m *MonRestart) Init(s *Sim) {
 	opts := s.Opts
+	opts.AppDir = "" // a second instance never shares the first one's app DB directory
 	opts.Dir = m.Dir
 	opts.Wrap = nil
 	m.N = NewNode(opts)
